@@ -320,6 +320,8 @@ func GenVal(r *zv.Rng, s *Sch, tag string, wild bool, out *[]string) {
 			c = "t"
 		}
 		add(fmt.Sprintf("r%d:%d:%s:%s:%s", cls, tg, c, hx(body), hx(full)))
+	case "time":
+		add(TimeTok(genTimeVal(r, p)))
 	case "S":
 		add("V" + strconv.Itoa(len(s.Fields)))
 		for _, f := range s.Fields {
